@@ -288,4 +288,15 @@ class C09(SimCheck):
     required_counters = ["c09.selections_checked", "c09.selections_after_failures", "c09.probe_copies"]
 
 
-CHECKS = {"C09": C09, "C12": C12, "C13": C13, "C08": C08, "C19": C19, "C02": C02, "C03": C03, "C04": C04, "C18": C18, "C01": C01, "C05": C05, "C06": C06, "C07": C07, "C10": C10, "C20": C20}
+class C17(SimCheck):
+    pid = "C17"
+    rule = ("1-3 servers with cookie behaviours {none, valid, changing server cookie, wrong client part, client-part only} that can change mid-run, BADCOOKIE replies, source-address changes, "
+            "adversarial cookie-less replies, clock advances across 120 s / 300 s / 86400 s, UDP and TCP (after TC or BADCOOKIE fallback), plus a scripted life-cycle production (prove support, "
+            "cookie-less reply, more valid traffic, cross a timer, test again); reference rules restricted to the statement: no COOKIE option over TCP; client part unchanged across transmissions to a "
+            "server unless the source address changed, it is a day old, or a non-supporting reply arrived / the regression period ran out; the server part echoed is the latest one delivered for that "
+            "client cookie; <= 3 BADCOOKIE-triggered UDP resends before TCP; once support is proven a reply without a valid cookie is not accepted until 120 s after the first such reply. "
+            "non-trivial = a server cookie was echoed and a timer/rotation cause was exercised; distinct = distinct scenario text")
+    required_counters = ["c17.server_cookie_echo_checks", "c17.timer_crossings"]
+
+
+CHECKS = {"C17": C17, "C09": C09, "C12": C12, "C13": C13, "C08": C08, "C19": C19, "C02": C02, "C03": C03, "C04": C04, "C18": C18, "C01": C01, "C05": C05, "C06": C06, "C07": C07, "C10": C10, "C20": C20}
